@@ -114,6 +114,7 @@ type vfCliReq struct {
 	resp     *http.Response
 	gmu      sync.Mutex
 	gated    []*vfCliBody // every gated body handed to the Transport (one per attempt)
+	ended    bool         // guarded by gmu: bclose was executed
 	conn     *vfCliConn   // connection and stream of the latest HEADERS seen for this request
 	sid      uint32
 	open     bool // driver bookkeeping for choosing commands only: stream not yet closed
@@ -275,6 +276,7 @@ func (d *vfCli) newRequest(r *vfCliReq) *http.Request {
 	gated := func() io.ReadCloser {
 		b := vfCliNewBody()
 		r.gmu.Lock()
+		b.eof = r.ended // the script already ended this request's body: a replay ends at once
 		r.gated = append(r.gated, b)
 		r.gmu.Unlock()
 		return b
@@ -520,6 +522,9 @@ func (d *vfCli) do(cmd vfCliCmd) bool {
 		}
 		d.emit(map[string]any{"e": "bclose", "r": r.idx})
 		r.bclosed = true
+		r.gmu.Lock()
+		r.ended = true
+		r.gmu.Unlock()
 		b.end()
 		if r.srvEnd {
 			r.open = false
@@ -577,12 +582,22 @@ func (d *vfCli) finish() {
 	}
 	for it := 0; it < 16 && d.pending(); it++ {
 		progress := false
+		for _, c := range d.conns { // a live server answers PINGs
+			for c.live() && len(c.pings) > 0 {
+				progress = d.step(vfCliCmd{E: "pingack", C: c.idx}) || progress
+			}
+		}
 		for _, r := range d.reqs {
-			if r.rt != nil && !r.reported && r.open && !r.respSent && r.conn.live() {
-				if b := d.curBody(r); b != nil {
-					b.end() // body of a retried attempt
-				}
+			if r.rt == nil || !r.open || !r.conn.live() {
+				continue
+			}
+			if b := d.curBody(r); b != nil {
+				b.end() // body of a retried attempt
+			}
+			if !r.respSent {
 				progress = d.step(vfCliCmd{E: "resp", R: r.idx, Es: true}) || progress
+			} else if !r.srvEnd { // a response in progress ends, so that its slot is freed
+				progress = d.step(vfCliCmd{E: "data", R: r.idx, Es: true}) || progress
 			}
 		}
 		if !progress && it >= 2 {
